@@ -48,12 +48,14 @@ def gen(ctx):
             for bs in bss:
                 if quick and len(data) > 8 and bs != 5 * B + 1:
                     continue
-                prior = rng.choice(["absent", "absent", "longer_dense"]) if size <= 8 * MiB else "absent"
+                prior = rng.choice(["absent", "absent", "longer_dense", "same", "shorter"]) if size <= 8 * MiB else "absent"
                 cases.append(Case(size, data=data, driver=driver, workers=rng.choice([1, 2, 4, 16]), bs=bs,
                                   reflink=rng.choice(["auto", "never"]), prior=prior))
-    # overwriting a fully allocated destination, both drivers
+    # overwriting a fully allocated destination (longer, and of EXACTLY the source's length: a refreshed image), both drivers
     for driver in ("parfile", "parblock"):
         cases.append(Case(4 * MiB, data=[(MiB, MiB + B)], driver=driver, workers=2, bs=MiB, prior="longer_dense"))
+        cases.append(Case(4 * MiB, data=[(MiB, MiB + B)], driver=driver, workers=2, bs=MiB, prior="same"))
+        cases.append(Case(6 * MiB + 123, data=[(0, 2 * B), (6 * MiB, 6 * MiB + 123)], driver=driver, workers=4, bs="noprogress", prior="same"))
     return cases
 
 
@@ -89,7 +91,7 @@ def nontrivial(case, o):
 def run(ctx, out):
     out.rule = ("sparse ext4 files with holes >= 1 MiB (leading, trailing, interleaved, empty, 41 extents = two FIEMAP pages), "
                 "block sizes below/above segment sizes, both drivers, workers 1..16, fresh and fully allocated prior "
-                "destinations; plus runs over FIVE sparse files at once (tree and multi-source) in which FIEMAP / FICLONE / "
+                "destinations (longer, shorter, and of exactly the source's length); plus runs over FIVE sparse files at once (tree and multi-source) in which FIEMAP / FICLONE / "
                 "copy_file_range is refused for one of them: the others must stay sparse; non-trivial = the source is classified "
                 "sparse by st_blocks; distinct = distinct case tuple")
     out.assumptions.append("C11: block allocation by ext4 for the written ranges is observed (st_blocks), not proved")
